@@ -385,10 +385,16 @@ def recursion_bound(c, f, call, callee_name):
             return 'bounded by the data structure: argument %d is %s of the caller\'s own argument' % (i, org[1])
         if org and org[0] == 'call' and org[1] in ('cfg_setopt',):
             return 'bounded by the schema: argument %d is the section freshly created by %s() from opt->subopts' % (i, org[1])
+        if org and org[0] == 'call' and org[1] in ('cfg_opt_getnsec', 'cfg_opt_gettsec', 'cfg_getnsec', 'cfg_gettsec', 'cfg_getsec'):
+            return 'bounded by the tree: argument %d is a section one level below, as returned by %s()' % (i, org[1])
         if org and org[0] in ('param',):
             break   # same object passed on: needs a depth bound
         if org and org[0] == 'field-of-call' and org[2] in ('cfg_setopt', 'cfg_addval', 'cfg_opt_getval'):
             return 'bounded by the schema: argument %d is ->%s of the value created by %s()' % (i, org[1], org[2])
+        if org and org[0] == 'field-of-call' and org[2] in c.unknown_funcs and c.func(org[2]) is not None and \
+                not any(not x.is_dbg() for x in c.func(org[2]).calls()):
+            # a call-free accessor split off the caller: what it returns is reached from its argument
+            return 'bounded by the data structure: argument %d is ->%s of what the accessor %s() reads from the caller\'s own argument' % (i, org[1], org[2])
     # (b) depth guard
     for i, a in enumerate(call.args):
         if a.kind != 'reg':
